@@ -5,7 +5,8 @@ P: gen/mapdeps.py -> Gen/MapDeps.lean (TypeMapItem members, dependency table by 
    order_injective, sort_perm_invariant, maplist_perm_invariant for every item parser).
 T: `kahn` (real determine_load_order on random dependency tables vs the model), `sort`/`order`
    (Python's stable sorted vs sortByKey / orderEntries, duplicates included), `dexperm` (androguard's
-   parse of a file with a permuted map vs the Lean file model of C05 on the same bytes).
+   parse of a file with a permuted map vs the Lean file model of C05 on the same bytes), `dexpermx` (the
+   same with the extended model: static values, init values, annotations).
 S: `dexperm` oracle: the parse of the permuted file must equal the parse of the unpermuted file
    (classes, members, strings, code bytes, static values) — every permutation for maps with <= 7
    entries, seeded random permutations for larger ones; also the shipped DEX files.
@@ -16,6 +17,7 @@ import os
 from collections import OrderedDict
 
 from harness import dexmodel as M
+from harness import dexx as X
 from harness.fw import Check, Driver, REPO, hexs
 from harness.props import c05
 
@@ -85,7 +87,7 @@ def full_view(data):
     for c in d.get_classes():
         for f in c.get_fields():
             iv = f.get_init_value()
-            extra.append("-" if iv is None else repr(iv.get_value()))
+            extra.append("-" if iv is None else X.show_real(iv))      # canonical text (nested arrays / annotations included)
         for m in c.get_methods():
             code = m.get_code()
             if code is not None and code.get_tries_size():
@@ -176,6 +178,8 @@ def run(ck: Check):
         alien[origin] = u
     for i in range(1000 if not ck.quick else (800 if ck.escalated else 160)):
         model = M.gen_model(rng)          # format versions 035..041
+        if i % 2:                          # explicit static values (all value types) and annotations of every kind
+            model = X.enrich(rng, model, long_values=True)
         files.append(("random:%d" % i, M.build(model)[0], model))
     for name, data in c05.shipped_dex():
         if len(data) <= (3000000 if not ck.quick else 40000):
@@ -185,6 +189,7 @@ def run(ck: Check):
             "files_version_ge_040": 0, "outcome_error_files": 0}
     distinct = set()
     treqs, treal, tcase = [], [], []
+    xreqs, xreal, xcase = [], [], []
     samples = []
     for origin, data, model in files:
         ents = M.read_map(data)
@@ -222,18 +227,25 @@ def run(ck: Check):
                 treqs.append("dex " + hexs(pdata))
                 treal.append(got.split(" X[")[0])
                 tcase.append({"origin": origin, "perm": list(p)})
+                if pi < 2:                 # the extended model (Model/DexFileX.lean) on the permuted file
+                    xreqs.append("dexx " + hexs(pdata))
+                    xreal.append(c05.real_line_x(pdata))
+                    xcase.append({"origin": origin, "perm": list(p)})
         if len(samples) < 3 and n > 8:
             samples.append({"origin": origin, "map_types": types, "permutations": len(perms), "perm": list(perms[-1])})
     tmodel = drv5.ask(treqs)
     ck.compare("dexperm", ["dexperm %s %s" % (c["origin"], c["perm"]) for c in tcase], treal, tmodel)
+    ck.compare("dexpermx", ["dexpermx %s %s" % (c["origin"], c["perm"]) for c in xcase], xreal, drv5.ask(xreqs))
     for m in ck.corr_mismatch:
-        if m["stream"] == "dexperm":
+        if m["stream"] in ("dexperm", "dexpermx"):
             m["real"], m["model"] = c05.first_diff(m["real"], m["model"])
     ck.cover(evaluations=dist["parses"], distinct=distinct, samples=samples,
              dist=dict(dist, kahn_tables=len(tables), kahn_recursive=n_rec))
-    ck.partial.append("frame/adequacy theorems (step_frame, deps_adequate) cover the ten item types modelled in Model/DexFile.lean; for "
-                      "annotations, debug info, encoded arrays, call sites, method handles and hidden-api data the dependency table "
-                      "stays the code's own claim, validated by dexperm")
+    ck.partial.append("frame/adequacy theorems cover the ten item types of Model/DexFile.lean (step_frame, deps_adequate) and, for the "
+                      "extended loader of Model/DexFileX.lean, encoded arrays, annotation items / sets / set-ref-lists / directories and "
+                      "the full ClassDefItem.reload (stepX_frame, depsX_adequate); for debug info, call sites, method handles and "
+                      "hidden-api data the dependency table stays the code's own claim, validated by dexperm; the file-level geometric "
+                      "theorems (parse_perm_invariant…) are stated for the base loader")
     ck.partial.append("parse_perm_invariant assumes the decidable hypothesis sameItems (no item decodes differently after the map list "
                       "was rewritten); parse_perm_invariant_disjoint derives it from the geometry of the original file except for an "
                       "item section that starts below the map list and fails to decode; parse_perm_needs_items shows the hypothesis "
